@@ -99,8 +99,15 @@ def codec_check(pid, tier, suites, mc_cfgs, level_note, case_of, corrupt, profil
             binary = vlib.build_harness(profile)
             for suite in suites:
                 trace = os.path.join(wd, "%s-%s.ndjson" % (suite, profile))
-                vlib.run_harness(binary, [suite, "--out", trace, "--tier", tier,
-                                          "--seed", str(vlib.seed())])
+                try:
+                    vlib.run_harness(binary, [suite, "--out", trace, "--tier", tier,
+                                              "--seed", str(vlib.seed())], timeout=600)
+                except vlib.HarnessCrash as crash:
+                    # the code under test killed or wedged the process: that is data, not a tool error
+                    verdict.reject({"ev": crash.label, "crash": True, "profile": profile},
+                                   {"suite": suite, "profile": profile, "how": crash.how,
+                                    "call": crash.label, "input_hex": crash.input_hex})
+                    continue
                 total, mism, states = vlib.tlc_validate(trace, "%s-%s-%s" % (pid, suite, profile))
                 cov["traces_validated_against_impl"] += total
                 cov["states"] += states
@@ -264,8 +271,18 @@ def e2e_check(pid, tier, scenarios, trace_spec, corrupt, note, mc_cfgs=(), threa
             trace = os.path.join(wd, "trace%d.ndjson" % run)
             raw = os.path.join(wd, "raw%d.ndjson" % run)
             th = threads if run == 0 else 1
-            vlib.run_harness(binary, ["e2e", "--scenarios", scn_path, "--out", raw,
-                                      "--threads", str(th), "--par", str(par)], timeout=3000)
+            try:
+                vlib.run_harness(binary, ["e2e", "--scenarios", scn_path, "--out", raw,
+                                          "--threads", str(th), "--par", str(par)], timeout=3000)
+            except vlib.ToolError as err:
+                inflight = scenarios_in_flight(raw)
+                if not inflight:
+                    raise
+                # the process died / hung while these scenarios were running against the code under test
+                for name in inflight:
+                    verdict.reject({"crash": True, "scn_meta": json.dumps(by_name.get(name, {}).get("meta", {}), sort_keys=True)},
+                                   {"how": str(err), "scenario": by_name.get(name), "history": scenario_history(raw, name)})
+                break
             regroup(raw, trace)
             with open(trace) as f:
                 for line in f:
@@ -301,6 +318,25 @@ def e2e_check(pid, tier, scenarios, trace_spec, corrupt, note, mc_cfgs=(), threa
         return rc
     finally:
         vlib.cleanup(wd)
+
+
+def scenarios_in_flight(raw):
+    """Scenarios that were started (reset) but not ended in a possibly truncated trace."""
+    started, ended = [], set()
+    try:
+        with open(raw) as f:
+            for line in f:
+                try:
+                    e = json.loads(line)
+                except ValueError:
+                    continue
+                if e.get("ev") == "reset":
+                    started.append(e.get("scn"))
+                elif e.get("ev") == "end":
+                    ended.add(e.get("scn"))
+    except OSError:
+        return []
+    return [s for s in started if s not in ended]
 
 
 def scenario_history(trace, name):
